@@ -233,7 +233,8 @@ PROPS["C02"] = {
     "quick": [H("ZZ_C02_Program", params={"PRE": 0}, reach=["drained"], bounds="2 clients x 2 ops, cap 2, preemptions 0, costs symbolic"),
               H("ZZ_C02_Program", params={"PRE": 0, "WQ": 1, "OPS": 1}, reach=["drained"], bounds="one op per client with a write queue of one slot: writers block on the full queue (a writer that skipped the accounting instead would leave an untracked entry)"),
               H("ZZ_C02_ExpiryWindow", params={"PRE": 1}, reach=["settled"], bounds="TTL extension vs expiry path at atomic granularity, preemptions 1"),
-              H("ZZ_C04_LateUpdate", reach=["three-ticks"], bounds="cost and TTL update processed after the new deadline: accounting stays exact")],
+              H("ZZ_C04_LateUpdate", reach=["three-ticks"], bounds="cost and TTL update processed after the new deadline: accounting stays exact"),
+              H("ZZ_C02_TwoWriters", params={"PRE": 1}, reach=["drained"], bounds="two writers x 2 Sets of one key, symbolic costs, preemptions 1 (an update event may overtake the insert event)")],
     "thorough": [H("ZZ_C02_Program", params={"PRE": 1}, reach=["drained"], bounds="2 clients x 2 ops, cap 2, preemptions 1"),
                  H("ZZ_C02_Program", params={"PRE": 0, "WQ": 1}, reach=["drained"], bounds="2 clients x 2 ops, one-slot write queue"),
                  H("ZZ_C02_Program", params={"PRE": 0, "CAP": 3}, reach=["drained"]),
